@@ -526,8 +526,9 @@ func TestVerifC14bPool(t *testing.T) {
 					t.Skip()
 				}
 				it := types[rapid.IntRange(0, 1).Draw(t, "type")]
+				luck := rapid.IntRange(0, 9).Draw(t, "createLuck") > 0
 				h.mu.Lock()
-				h.createOK = rapid.IntRange(0, 9).Draw(t, "createLuck") > 0
+				h.createOK = luck
 				h.mu.Unlock()
 				ok := wp.Create(it)
 				h.logf("create(%s)=%v", it.Name, ok)
@@ -803,6 +804,8 @@ func TestVerifC14bPool(t *testing.T) {
 			},
 			"procExit": func(t *rapid.T) {
 				inst := pickInst(t)
+				// (no Draw while h.mu is held: rapid aborts a case by panicking
+				// out of Draw, and the cleanup needs the lock)
 				h.mu.Lock()
 				var us []string
 				for u, p := range inst.procs {
@@ -810,13 +813,15 @@ func TestVerifC14bPool(t *testing.T) {
 						us = append(us, u)
 					}
 				}
+				h.mu.Unlock()
 				sort.Strings(us)
 				if len(us) == 0 {
-					h.mu.Unlock()
 					t.Skip()
 				}
 				u := us[rapid.IntRange(0, len(us)-1).Draw(t, "which")]
-				if rapid.IntRange(0, 3).Draw(t, "stale") == 0 {
+				stale := rapid.IntRange(0, 3).Draw(t, "stale") == 0
+				h.mu.Lock()
+				if stale {
 					inst.procs[u] = &bProc{stale: true}
 				} else {
 					delete(inst.procs, u)
